@@ -753,6 +753,19 @@ def decap_oracle(i, op, so, o, fed, mand, rx_last, trains, info, strict, sess, F
             sess._label_desync = True     # the receiver rightly forgot the label: later re-use cannot resolve
             if so.ok or (so.toks[1] == "UnkownMandatoryHeader" and int(so.toks[2]) != h[0] + 2):
                 F(i, ["C13", "C10"], "packet with an unknown mandatory extension: %s" % so.res)
+        # A start/complete packet that is refused for what FOLLOWS its label (extension chain running past the
+        # packet, length fields) still is the nearest preceding start/complete packet for the re-use labels that
+        # come after it: a later re-use label must never be resolved to the label remembered BEFORE it.
+        if len(fed) >= 2 and so.err:
+            h = ref_hdr_read((fed[0] << 8) | fed[1])
+            if h is not None and h[1] in "CF" and len(fed) >= h[0] + 2:
+                off = 4 if h[1] == "C" else 7
+                ln = {"6": 6, "3": 3, "B": 0, "U": 0}[h[2]]
+                if h[0] + 2 >= off + ln:
+                    if h[2] == "B":
+                        return None
+                    if h[2] in "63":
+                        return Label(h[2], bytes(fed[off:off + ln]))
         return rx_last
     n = pk.total
     cons = dec_consumed(so)
